@@ -39,6 +39,8 @@ VARIANTS = [
     B("cavdp-no-abs-window", "        abs_acc_interval = abs(acc_interval)\n", "        abs_acc_interval = acc_interval\n", "R-CAVDP"),
     B("cavdp-interp-on-seconds", "    cav_dp_time_series = np.interp(asig.time, t1s, cav_dp_1_series)\n",
       "    cav_dp_time_series = np.interp(t1s, t1s, cav_dp_1_series)\n", "R-CAVDP"),
+    B("cav-reuses-snapshot", "    abs_acc = np.abs(acc_sig.values)\n    return cumulative_trapezoid(", "    if getattr(acc_sig, 'cav_series', None) is not None:\n        return acc_sig.cav_series\n    abs_acc = np.abs(acc_sig.values)\n    return cumulative_trapezoid(", "R-IM-TYPE"),
+    B("arias-scaled-by-snapshot", "    return _raw_calc_arias_intensity(acc_sig.values, acc_sig.dt)\n", "    return _raw_calc_arias_intensity(acc_sig.values, acc_sig.dt) + 0 * acc_sig.arias_intensity\n", "R-IM-TYPE"),
     # twins
     T("arias-g-name", ARIAS, "    g = 9.81\n    return np.pi / (2 * g) * cumulative_trapezoid(acc ** 2, dx=dt, initial=0)\n"),
     T("arias-acc-times-acc", ARIAS, "    return np.pi / 2 / 9.81 * cumulative_trapezoid(acc * acc, dx=dt, initial=0)\n"),
